@@ -85,6 +85,7 @@ void *xalloc(size_t n);        /* exactly n bytes; canary behind it in non-ASan 
 char *xstr(const char *s);
 void xfree_all(void);
 void canary_check(const char *where);   /* viol C03 if a canary changed */
+extern const char *CANARY_PROP;         /* additionally reported under this property (C05: "no byte at or beyond data_size") */
 
 /* ----------------------------------------------------------------- world */
 #define MAXCMD 320
